@@ -13,6 +13,11 @@ import z3
 I = z3.IntSort(); B = z3.BoolSort(); R = z3.RealSort()
 NULL = z3.IntVal(-1)
 
+# LP variable identity = its name (PuLP requires distinct names): constructors are injective and pairwise disjoint
+Var = z3.Datatype('Var')
+Var.declare('pairv', ('s', I), ('p', I)); Var.declare('alphav', ('as_', I), ('ap', I)); Var.declare('betav', ('bs', I), ('bp', I))
+Var.declare('named', ('n', I)); Var.declare('indexed', ('fam', I), ('idx', I))
+Var = Var.create()
 Tok = z3.Datatype('Tok'); Tok.declare('mk', ('kind', I), ('val', I)); Tok = Tok.create()
 Opt = z3.Datatype('Opt'); Opt.declare('none'); Opt.declare('some', ('v', I)); Opt = Opt.create()
 OptR = z3.Datatype('OptR'); OptR.declare('none'); OptR.declare('some', ('v', R)); OptR = OptR.create()
@@ -35,7 +40,8 @@ def list_sort(k):
 
 
 def sort_of(k):
-    if k in ('int', 'ref', 'var', 'enum', 'strint'): return I
+    if k in ('int', 'ref', 'enum', 'strint'): return I
+    if k == 'var': return Var
     if k == 'bool': return B
     if k == 'real': return R
     if k == 'tok': return Tok
@@ -166,7 +172,8 @@ def fresh(name, sort):
 
 
 def fresh_of_kind(name, k):
-    if k == 'int' or k == 'var' or k == 'enum': return VInt(fresh(name, I))
+    if k == 'int' or k == 'enum': return VInt(fresh(name, I))
+    if k == 'var': return VLpVar(fresh(name, Var))
     if k == 'bool': return VBool(fresh(name, B))
     if k == 'real': return VReal(fresh(name, R))
     if k == 'ref': return VRef(fresh(name, I))
@@ -189,6 +196,9 @@ def fresh_like(name, v):
     if isinstance(v, VBool): return VBool(fresh(name, B))
     if isinstance(v, VReal): return VReal(fresh(name, R))
     if isinstance(v, VRef): return VRef(fresh(name, I), v.cls)
+    if isinstance(v, VLpVar): return VLpVar(fresh(name, Var))
+    if isinstance(v, VAff): return VAff(fresh(name, I))
+    if isinstance(v, VExt): return v
     if isinstance(v, VOpt): return VOpt(fresh(name, Opt))
     if isinstance(v, VOptR): return VOptR(fresh(name, OptR))
     if isinstance(v, VTok): return VTok(fresh(name, Tok))
@@ -203,7 +213,8 @@ def fresh_like(name, v):
 
 def wrap(kind, t):
     """Wrap a z3 term read out of a list of element kind `kind`."""
-    if kind in ('int', 'var', 'enum'): return VInt(t)
+    if kind in ('int', 'enum'): return VInt(t)
+    if kind == 'var': return VLpVar(t)
     if kind == 'bool': return VBool(t)
     if kind == 'real': return VReal(t)
     if kind == 'ref': return VRef(t)
@@ -228,6 +239,7 @@ def kind_of(v):
     if isinstance(v, VTok): return 'tok'
     if isinstance(v, VOpt): return 'optint'
     if isinstance(v, VList): return ('list', v.kind)
+    if isinstance(v, VLpVar): return 'var'
     raise TypeError('no kind for %r' % (v,))
 
 
